@@ -40,6 +40,8 @@ READ_ENTRIES = [
 def run(ctx):
     ctx.step(noblock, ctx)
     ctx.step(writer, ctx)
+    # the writer's waits end only if every registration is given back exactly once
+    ctx.step(common.raii_token_moves, ctx, "C14.balance", ["lr_guarded.hpp", "cow_guarded.hpp", "rcu_list.hpp", "rcu_guarded.hpp"])
 
 
 def entries(ctx):
